@@ -71,9 +71,13 @@ def check_c08(ctx):
     known_here = [k for k in known if k["property"] == "C08"]
     base = 8000 if ctx.tier == "quick" else 400000
     results = []
-    for i, (fl, frac) in enumerate([("tsanhook", 1.0), ("tsanhook_o0", 0.3), ("tsanhook_clang", 0.5)]):
-        d = props.build_flavour(ctx, fl)
-        r = props.run_objsim(ctx, fl, "C08", int(base * frac), i * base, [k["sig"] for k in known_here])
+    flavours = [("tsanhook", 1.0, None, ()), ("tsanhook_o0", 0.3, None, ()), ("tsanhook_clang", 0.5, None, ())]
+    if ctx.tier == "thorough":
+        # the compile-time paths the shipped build does not contain (32-bit words, byte-wise access, SIMD stubbed out) through the C12 hook
+        flavours += [(f, 0.3, None, ()) for f in ("tsanhook_w32", "tsanhook_w32_u0_nosimd", "tsanhook_neutral")]
+    for i, (fl, frac, bl, defs) in enumerate(flavours):
+        d = props.build_flavour(ctx, fl, base=bl, defs=defs)
+        r = props.run_objsim(ctx, fl, "C08", int(base * frac), i * base, [k["sig"] for k in known_here], build=False)
         for v in r["violations"]:
             v["msg"] = symbolise(os.path.join(d, "objsim"), v["msg"])
         results.append((fl, r))
